@@ -283,6 +283,16 @@ func (cs *CacheScen) Scenario() *Scenario {
 							return true
 						})
 						out = ro
+					case CItems:
+						// Items is built on Range: the same per-key reading of the result
+						var ro cacheRangeOut
+						for k, v := range c.Items() {
+							if k < fillTarget {
+								ro.Pairs = append(ro.Pairs, [2]int{k, v})
+							}
+						}
+						sort.Slice(ro.Pairs, func(i, j int) bool { return ro.Pairs[i][0] < ro.Pairs[j][0] })
+						out = ro
 					case CSetCallback:
 						if in.CB == 0 {
 							c.SetEvictedCallback(nil)
@@ -377,7 +387,7 @@ func (cs *CacheScen) Scenario() *Scenario {
 			for _, o := range all {
 				in := o.In.(CIn)
 				switch in.Op {
-				case CRange:
+				case CRange, CItems:
 					ro := o.Out.(cacheRangeOut)
 					seen := map[int]int{}
 					for _, p := range ro.Pairs {
